@@ -722,12 +722,52 @@ class C07PCheck(PCheck):
             'finalisation and non-zero exit when R > 0, first-free backups and exact contents after finalisation, nothing '
             'pre-existing lost after an interruption. distinct = scenario digest; non-trivial = the gate was reached or a fault fired')
     probes_expected = ['gate_closed', 'gate_open', 'cli_backup_made', 'cli_content_checked', 'cli_finalise_interrupted',
-                       'no_output_on_failure']
+                       'no_output_on_failure', 'cli_restart_after_crash']
 
     def budgets(self, tier):
         if tier == 'thorough':
             return {'runs': 5000, 'determinism': 40, 'wall': 3000, 'workers': 32}
         return {'runs': 300, 'determinism': 10, 'wall': 1800, 'workers': 32}
+
+    def execute(self, scenario):
+        fut = FLEET.submit(scenario['env'], scenario['task'], timeout=self.run_timeout)
+        res = fut.result()
+        first = self.verdict(scenario, res)
+        if first['verdict'] != PASS or not res.get('crashed_tree'):
+            return first
+        # restart: the user runs the same command again in the directory the crash left behind
+        task2 = dict(scenario['task'])
+        task2['cwd_pre'] = res['crashed_tree']
+        task2['fs'] = None
+        task2['want_tree'] = True
+        res2 = FLEET.submit(scenario['env'], task2, timeout=self.run_timeout).result()
+        second = self.verdict(scenario, res2)
+        first['stats']['probes']['cli_restart_after_crash'] = first['stats']['probes'].get('cli_restart_after_crash', 0) + 1
+        first['stats']['execs'] = first['stats'].get('execs', 1) + 1
+        if second['verdict'] == VIOLATION:
+            second['invariant'] = 'restart:' + str(second['invariant'])
+            second['signature'] = 'restart:' + str(second.get('signature'))
+            return second
+        if second['verdict'] != PASS:
+            return second
+        # every file that existed before the first attempt is still there, under its own or a backup name
+        final = dict((k, core.unb64(v)) for k, v in res2.get('final_tree', []))
+        if res2.get('final_tree') is not None:
+            import re as _re
+            for name, data in scenario['task'].get('cwd_pre', []):
+                old = core.unb64(data)
+                if final.get(name) == old:
+                    continue
+                d, base = os.path.split(name)
+                pat = _re.compile(r'^#' + _re.escape(base) + r'\.[1-9][0-9]*#$')
+                if any(os.path.dirname(k) == d and pat.match(os.path.basename(k)) and v == old for k, v in final.items()):
+                    continue
+                return result(VIOLATION, invariant='restart-loses-original', signature='restart-loses-original',
+                              expected='%s intact under its own or a backup name' % name,
+                              actual=sorted(final)[:12], detail={'first_outcome': res['outcome'], 'second_outcome': res2['outcome']},
+                              stats=first['stats'], run_digest=core.digest([res['digest'], res2['digest']]))
+        first['digest'] = core.digest([res['digest'], res2['digest']])
+        return first
 
 
 class C02PCheck(PCheck):
